@@ -242,6 +242,9 @@ class Engine(ExprMixin, CallMixin):
                             nxt.append(s2)
                     states = nxt
                 return [('next', None, s) for s in states]
+            if isinstance(v, SVal):      # unpacking an opaque item
+                v = STuple([SVal(st.fresh.const('unpacked', Val)) for _ in tgt.elts])
+                return self.assign(tgt, v, st)
             raise Unsupported('unpacking %r' % (v,))
         if isinstance(tgt, ast.Attribute):
             out = []
@@ -738,6 +741,7 @@ class Engine(ExprMixin, CallMixin):
         try:
             args = con.setup(self, st, variant) if variant is not None else con.setup(self, st)
             names = [a.arg for a in fnode.args.posonlyargs + fnode.args.args + fnode.args.kwonlyargs]
+            names += [x.arg for x in (fnode.args.vararg, fnode.args.kwarg) if x is not None]
             for n in names:
                 if n not in args:
                     raise Inapplicable('parameter %s of %s has no symbolic argument in the contract' % (n, qualname))
